@@ -383,6 +383,17 @@ func runC03(c *runCfg) error {
 			raw = append(raw, mSync()...)
 			cs = flatCase(i, "surplus", cfg, raw, nil)
 		}
+		if i%10 == 2 {
+			// the password message obeys its declared length like every other message: without a terminator inside it
+			// (unterminated, body-less, terminator only behind the declared end) it is refused — the bytes behind it are
+			// not part of the password
+			cfg := cs.cfg
+			cfg.auth = []string{"pw", "accept"}[(i/10)%2]
+			cfg.authPW = []byte("abc")
+			pws := [][]byte{msg('p', []byte("abc")), msg('p', nil), msg('p', []byte("ab")), mPassword([]byte("abc")), msg('p', []byte("abc\x00surplus"))}
+			raw := cat(stdStartup, pws[(i/20)%len(pws)], mQuery(g.queryName(&cfg)), []byte{0}, mSync(), mTerminate())
+			cs = flatCase(i, "password_framing", cfg, raw, nil)
+		}
 		if i%10 == 4 {
 			// Sync / Flush carrying a body inside a COPY: the body is consumed with its message, in every segmentation
 			bcfg, hs := copyBodyCases(64)
